@@ -16,7 +16,7 @@ RULE = ("(unroll) seeded acyclic circuits x injective output->input pairings x n
         "last step depends on a step-0 signal through the state")
 PROBES = ["n=1", "state_output_is_primary_input", "flop_feeds_flop", "initial:None", "initial:0", "initial:1",
           "initial:dict", "add_flop_outputs", "remove_unloaded", "keep_unloaded", "unroll", "sequential", "ignore_pins", "repeated_call_same_objects"]
-ASSUMPTIONS = ["<= 12 free bits in total (state + n x inputs), <= 4 state bits, n <= 6"]
+ASSUMPTIONS = ["<= 14 free bits in total (state + n x inputs), <= 4 state bits, n <= 6 mostly and 10-12 in a tenth of the runs"]
 TIME_UNIT = "circuit clock cycles executed by the reference state machine"
 
 
@@ -29,7 +29,10 @@ def gen(rng, tier):
         k = rng.randint(0, min(len(outs), len(ins)))
         ks = rng.sample(outs, k)
         vs = rng.sample(ins, k)
-        return {"kind": "unroll", "net": net, "n": rng.randint(1, 6), "state_io": dict(zip(ks, vs)),
+        n_it = rng.randint(1, 6)
+        if rng.random() < 0.12:
+            n_it = rng.randint(10, 12)    # two-digit iteration numbers in the generated names
+        return {"kind": "unroll", "net": net, "n": n_it, "state_io": dict(zip(ks, vs)),
                 "prefix": rng.choice(("cg_unroll", "cg_unroll", "t")), "peer": {"seed": rng.getrandbits(32)}}
     pins_in = rng.choice((["clk", "d"], ["clk", "rst", "d"], ["d"]))
     tname = rng.choice(("dff", "ff"))
@@ -60,7 +63,7 @@ def gen(rng, tier):
     iv = rng.choice((None, None, "0", "1", "dict"))
     if iv == "dict":
         iv = {i: rng.choice(("0", "1")) for i in insts if rng.random() < 0.7}
-    return {"kind": "sequential", "net": net, "n": rng.randint(1, 5), "d": "d", "q": "q",
+    return {"kind": "sequential", "net": net, "n": rng.randint(10, 12) if rng.random() < 0.1 else rng.randint(1, 5), "d": "d", "q": "q",
             "ignore_pins": rng.choice((None, [p for p in pins_in if p != "d"], "clk")),
             "add_flop_outputs": rng.random() < 0.5, "initial_values": iv, "remove_unloaded": rng.random() < 0.6,
             "repeat_first": rng.random() < 0.35,
@@ -88,7 +91,7 @@ def run(case, ctx):
             raise Skip("pairing not injective output->input")
         other_in = [i for i in ins if i not in sio.values()]
         nbits = len(sio) + n * len(other_in)
-        if nbits > 12:
+        if nbits > 14:
             raise Skip("too many free bits")
         if any(nodes[k][0] == "input" for k in sio):
             ctx.probe("state_output_is_primary_input")
@@ -193,7 +196,7 @@ def run(case, ctx):
             init[inst] = iv
     free_state = [inst for inst in insts if init[inst] is None]
     nbits = len(free_state) + n * len(kept_in)
-    if nbits > 12:
+    if nbits > 14:
         raise Skip("too many free bits")
     sig = {"kind": "sequential", "iv": "None" if iv is None else ("dict" if isinstance(iv, dict) else iv),
            "add_flop_outputs": case["add_flop_outputs"], "remove_unloaded": case["remove_unloaded"]}
